@@ -14,10 +14,26 @@ ASSUMPTIONS = [
     "times inside the stated intervals; that the DSP delivers such bursts for audio with amplitude/DC/phase/offset/baud "
     "error/noise in the stated ranges at every rate is validated by sampling the real receiver, not proved",
     "known finding F9 (known_findings.json): junk after the header voting to '<chars>-' extends a callsign shorter than 8 characters",
+    "known finding F10 (known_findings.json): with noise and sample rate x |baud error| >= 650 Hz the timing loop (gains not "
+    "normalised by samples per symbol) loses about 1 burst in 12, hence about 1 transmission in 20",
     "sampled envelope: rates 8000..96000 (standard and random), amplitude 100..31600, DC up to +/-5x the amplitude (|dc|+amp <= 32000), "
     "baud error up to +/-1 %, pause 1 s +/-5 %, SNR >= 20 dB or noiseless, lead-in 0.2..0.8 s, 1..31 locations",
 ]
 RATES = rxlib.STD_RATES + [96000]
+
+
+def f10_class(tx):
+    """input class of known finding F10, decided on the transmission's parameters only: additive noise present and
+    sample rate x |baud error| >= 650 Hz (e.g. >= 0.68 % at 96 kHz, >= 0.74 % at 88.2 kHz, >= 0.82 % at 80 kHz; never below 65 kHz)"""
+    return tx.snr is not None and tx.rate * abs(tx.baud) >= 650.0
+
+
+def f10_shape(tx, ev, pm):
+    """failure shape of F10: bursts are LOST (the burst-level premise fails) and nothing wrong is reported: every
+    StartOfMessage that is reported carries exactly the transmitted text, at most one of each message"""
+    soms = [e for e in ev if e["kind"] == "som"]
+    eoms = [e for e in ev if e["kind"] == "eom"]
+    return pm is not None and len(soms) <= 1 and len(eoms) <= 1 and all(e["text"] == tx.H for e in soms)
 
 
 def make_tx(rng, rate=None, nloc=None):
@@ -85,6 +101,8 @@ def run_cases(ctx, cases):
                 ctx.known.append(kd[0]["line"])
             if not kd:
                 ctx.violation("property", c[len(rxlib.F9_MARK):].strip(), {"input": line, "tx": tx.describe()})
+        elif c and f10_class(tx) and f10_shape(tx, ev, pm) and [k for k in vlib.load_known_findings("C01") if k.get("class") == "F10" and k.get("kind") == "known"]:
+            stats["f10"] = stats.get("f10", 0) + 1
         elif c:
             ctx.violation("property", "%s%s [%s]" % (c, "; DSP premise broken: " + pm if pm else "", tx.describe()),
                           {"input": line, "events": r["impl"][:3000], "tx": tx.describe(), "premise": pm})
@@ -92,6 +110,8 @@ def run_cases(ctx, cases):
             stats["decoded_exactly"] += 1
             if pm:
                 ctx.notes.append("decoded exactly although a burst-level premise failed: %s" % pm)
+        if f10_class(tx):
+            stats["f10_class"] = stats.get("f10_class", 0) + 1
         key = str(tx.rate) if tx.rate in RATES else "other"
         stats["by_rate"][key] = stats["by_rate"].get(key, 0) + 1
     return stats
@@ -104,6 +124,11 @@ def run(ctx):
     cases += [make_tx(rng) for _ in range(32 if q else 1200)]
     stats = run_cases(ctx, cases)
     ctx.coverage["known_finding_F9_witness_reproduces"] = rxlib.run_f9_witness(ctx, "C01")
+    ctx.coverage["known_finding_F10_witness_reproduces"] = run_f10_witness(ctx)
+    # F10 is a loss RATE (about 1 transmission in 20 inside the class): far more than that is a different defect
+    if stats.get("f10_class", 0) >= 20 and stats.get("f10", 0) > 0.25 * stats["f10_class"]:
+        ctx.violation("property", "%d of %d transmissions inside the F10 input class lost bursts: far more than the characterised rate "
+                      "(about 1 in 20)" % (stats["f10"], stats["f10_class"]), {"f10_hits": stats["f10"], "f10_class": stats["f10_class"]})
     import asmlib
     insts = [i for i in asmlib.theorem_instances(rng.fork("instances"), 240 if q else 6000) if i[0].startswith("C01")]
     inst_ok, inst_names = asmlib.check_instances(ctx, insts)
@@ -120,8 +145,30 @@ def run(ctx):
         "model_replay_equal": stats["model_equal"],
         "junk_bytes_after_data_histogram": {str(k): v for k, v in sorted(stats["junk_lengths"].items())},
         "cases_by_rate": stats["by_rate"], "known_finding_F9_hits": stats.get("f9", 0),
+        "known_finding_F10_hits": stats.get("f10", 0), "cases_inside_F10_input_class": stats.get("f10_class", 0),
         "traces_validated_against_impl": stats["model_equal"],
     })
+
+
+def run_f10_witness(ctx):
+    """replay the stored witness of known finding F10 on the implementation (and the tick trace through the model); the
+    KNOWN-FINDING line is printed only if the witness still loses its bursts"""
+    kd = [k for k in vlib.load_known_findings("C01") if k.get("class") == "F10" and k.get("kind") == "known"]
+    if not kd:
+        return None
+    r = rxlib.run_rx([kd[0]["witness_input"]], check_model=True)[0]
+    if r.get("error"):
+        return False
+    if r["model"] != r["impl"]:
+        ctx.violation("correspondence", "receiver model replay differs from the implementation on the F10 witness",
+                      {"input": kd[0]["witness_input"], "model": (r["model"] or "")[:1500], "impl": r["impl"][:1500]})
+    H = kd[0]["witness_header"].encode("latin1")
+    ev = rxlib.parse_events(r["impl"])
+    nh = sum(1 for e in ev if e["kind"] == "burst" and e["data"][:len(H)] == H)
+    hit = bool(rxlib.oracle_exact(ev, H)) and nh < 2
+    if hit and kd[0]["line"] not in ctx.known:
+        ctx.known.append(kd[0]["line"])
+    return hit
 
 
 def replay(payload):
